@@ -14,7 +14,8 @@ MCVars == { [name |-> "db", guid |-> "sec", attrs |-> NV \cup {"TIME_BASED_AUTHE
             [name |-> "Plain0", guid |-> "global", attrs |-> {}, secure |-> FALSE] }
 MCVals == { [id |-> "empty", len |-> 0], [id |-> "d1", len |-> 76], [id |-> "d1b", len |-> 76],      \* d1b: another value of exactly the same length as d1
             [id |-> "d3", len |-> 172], [id |-> "dc", len |-> 744], [id |-> "d1c", len |-> 820],
-            [id |-> "huge", len |-> 70000] }     \* more than 64 KiB
+            [id |-> "huge", len |-> 70000],      \* more than 64 KiB
+            [id |-> "zlead", len |-> 10] }       \* a value that begins with zero bytes
 (* (whether a signed update of an ordinary variable that merely shares its NAME with a secure-boot variable has its descriptor removed is *)
 (* not something the statement settles - the store goes by the name -, so such variables are written with plain writes only)              *)
 ApiStep == \/ \E v \in Vars, val \in Vals, s \in BOOLEAN : (v.name = "db@global" => ~s) /\ WriteBegin(v, val, s)
